@@ -477,8 +477,23 @@ def run_streams(ctx, harness, driver, batches, singles, corpus):
         C.report_diffs(ctx, small, harness, driver, reference, C.default_eq, name)
 
 
+def b64_lenient_ref(inp):
+    """independent statement of Spec.b64Decode: empty unless the length is a multiple of 4 and every byte in front of the
+    first '=' is in the alphabet; then the complete bytes of the 6-bit stream in front of that '='"""
+    if len(inp) % 4:
+        return b""
+    head = inp.split(b"=")[0]
+    if any(c not in B64ALPHA for c in head):
+        return b""
+    bits = 0
+    for c in head:
+        bits = bits << 6 | B64ALPHA.index(c)
+    n = 6 * len(head)
+    return (bits >> (n % 8)).to_bytes(n // 8, "big") if n >= 8 else b""
+
+
 def spec_test(ctx, driver):
-    """the specifications the theorems are stated against (Spec.utf8, Spec.wellFormed, Spec.rfc4648Encode, Spec.upperHex,
+    """the specifications the theorems are stated against (Spec.utf8, Spec.wellFormed, Spec.rfc4648Encode, Spec.b64Decode, Spec.upperHex,
     decDigits/decimalValue) evaluated by the compiled driver and compared with Python: a TEST of the specs"""
     rng = ctx.rng
     lines, want = [], []
@@ -496,6 +511,9 @@ def spec_test(ctx, driver):
         want.append(f"spec-b64 {hx(base64.b64encode(r))}")
         lines.append(f"spec-hex {hx(r)}")
         want.append(f"spec-hex {hx(r.hex().upper().encode())}")
+    for r in [rand_b64(rng) for _ in range(6000)] + [bytes(rng.choice(B64SYMS + [0x41] * 20) for _ in range(4 * rng.randrange(0, 5))) for _ in range(4000)]:
+        lines.append(f"spec-b64d {hx(r)}")
+        want.append(f"spec-b64d {hx(b64_lenient_ref(r))}")
     wfs = [b""] + [bytes([a]) for a in range(256)] + [bytes([a, b]) for a in range(0x70, 256, 3) for b in range(0x70, 0xD0)]
     wfs += [rand_utf8ish(rng) for _ in range(6000)]
     for r in wfs:
